@@ -232,6 +232,15 @@ def backbone_peptides(bb: Backbone, edits, lim: dg.Limits, flags: Flags, must: b
             for q in range(max(0, base - 9), min(len(hap) - 2, base + 10)):
                 if hap[q:q + 3] == 'TGA':
                     extra.append(q)
+        exact = []
+        for c in bb.sec_may:
+            ps = [pmap(c + k) for k in range(3)]
+            if None not in ps and ps[2] - ps[0] == 2 and hap[ps[0]:ps[0] + 3] == 'TGA':
+                exact.append(ps[0])
+        if exact:
+            sec_sets.append(sorted(set(sec_ok + exact)))
+            for q in exact:       # each ambiguous codon on its own
+                sec_sets.append(sorted(set(sec_ok + [q])))
         if extra:
             sec_sets.append(sorted(set(sec_ok + extra)))
     L = len(hap)
